@@ -171,6 +171,7 @@ pub struct Slot<A> {
     pub all_events: Vec<String>,
     /// id of the connection for ledgers: (node, serial)
     pub serial: u64,
+    pub last_timeout: Option<Option<Duration>>,
 }
 
 pub struct Node<A> {
@@ -233,6 +234,8 @@ pub enum Rec {
     Timer { t: Duration, node: usize, ch: ConnectionHandle },
     Event { t: Duration, node: usize, ch: ConnectionHandle, ev: String },
     Drained { t: Duration, node: usize, ch: ConnectionHandle },
+    /// Value of poll_timeout() after a settle, recorded when it changed
+    NextTimeout { t: Duration, node: usize, ch: ConnectionHandle, at: Option<Duration> },
 }
 
 pub struct World<A: App> {
@@ -262,6 +265,13 @@ pub struct World<A: App> {
     pub make_app: Box<dyn FnMut(usize, ConnectionHandle) -> A + Send>,
     /// Blackhole: drop everything sent by these nodes
     pub blackhole: Vec<bool>,
+    /// Do not forward Drained to the endpoint and keep drained connections live (C20 part 5)
+    pub hold_drained: bool,
+    /// Consecutive timer firings at one instant for one connection: (t, node, ch, count)
+    pub timer_streak: (Duration, usize, usize, u32),
+    pub max_timer_streak: u32,
+    /// Output produced by connections after they reported drained
+    pub post_drain_output: Vec<String>,
 }
 
 pub fn addr(n: usize) -> SocketAddr {
@@ -292,6 +302,10 @@ impl<A: App> World<A> {
             ce_marks: Default::default(),
             make_app,
             blackhole: Vec::new(),
+            hold_drained: false,
+            timer_streak: (Duration::ZERO, 0, 0, 0),
+            max_timer_streak: 0,
+            post_drain_output: Vec::new(),
         }
     }
 
@@ -337,7 +351,7 @@ impl<A: App> World<A> {
         n.next_serial += 1;
         n.conns.insert(
             ch,
-            Slot { conn, app, events: vec![], drained_events: 0, lost: vec![], all_events: vec![], serial },
+            Slot { conn, app, events: vec![], drained_events: 0, lost: vec![], all_events: vec![], serial, last_timeout: None },
         );
         ch
     }
@@ -474,15 +488,19 @@ impl<A: App> World<A> {
             let mut progressed = false;
             let Some(mut slot) = self.nodes[node].conns.remove(&ch) else { return };
             let mut drained = false;
+            let was_drained = slot.drained_events > 0;
             while let Some(ev) = slot.conn.poll_endpoint_events() {
                 progressed = true;
+                if was_drained {
+                    self.post_drain_output.push("endpoint event after drained".into());
+                }
                 if ev.is_drained() {
                     slot.drained_events += 1;
                     drained = true;
                     self.recs.push(Rec::Drained { t: tt, node, ch });
                 }
                 // a second Drained for an already-removed connection must not reach the endpoint
-                if ev.is_drained() && slot.drained_events > 1 {
+                if ev.is_drained() && (slot.drained_events > 1 || self.hold_drained) {
                     continue;
                 }
                 if let Some(ce) = self.nodes[node].ep.handle_event(ch, ev) {
@@ -495,6 +513,9 @@ impl<A: App> World<A> {
                 buf.clear();
                 let Some(t) = slot.conn.poll_transmit(now, self.max_datagrams, &mut buf) else { break };
                 progressed = true;
+                if was_drained {
+                    self.post_drain_output.push(format!("transmit of {} bytes after drained", t.size));
+                }
                 let serial = slot.serial;
                 self.emit_transmit(node, Some(ch), Some(serial), &t, &buf, mtu_before);
             }
@@ -505,6 +526,8 @@ impl<A: App> World<A> {
                 slot.all_events.push(s);
                 if let Event::ConnectionLost { reason } = &ev {
                     slot.lost.push(reason.clone());
+                } else if was_drained && slot.lost.len() + 0 > 0 {
+                    self.post_drain_output.push(format!("event {ev:?} after drained"));
                 }
                 slot.events.push(ev);
             }
@@ -512,11 +535,18 @@ impl<A: App> World<A> {
                 let mut cx = AppCx { conn: &mut slot.conn, events: &mut slot.events, now, t: tt, node, ch };
                 progressed |= slot.app.drive(&mut cx);
             }
-            if drained || slot.drained_events > 0 {
+            if (drained || slot.drained_events > 0) && !self.hold_drained {
                 // keep polling a drained connection once more for late output, then retire it
                 if !progressed {
                     self.nodes[node].dead.push((ch, slot));
                     return;
+                }
+            }
+            if !progressed {
+                let to = slot.conn.poll_timeout().map(|x| x.saturating_duration_since(self.base));
+                if slot.last_timeout != Some(to) {
+                    slot.last_timeout = Some(to);
+                    self.recs.push(Rec::NextTimeout { t: tt, node, ch, at: to });
                 }
             }
             self.nodes[node].conns.insert(ch, slot);
@@ -573,7 +603,7 @@ impl<A: App> World<A> {
                 n.next_serial += 1;
                 n.conns.insert(
                     ch,
-                    Slot { conn, app, events: vec![], drained_events: 0, lost: vec![], all_events: vec![], serial },
+                    Slot { conn, app, events: vec![], drained_events: 0, lost: vec![], all_events: vec![], serial, last_timeout: None },
                 );
                 Some(ch)
             }
@@ -677,6 +707,12 @@ impl<A: App> World<A> {
             }
             NextEv::Timer(node, ch) => {
                 let now = self.now();
+                if self.timer_streak.0 == self.t && self.timer_streak.1 == node && self.timer_streak.2 == ch.0 {
+                    self.timer_streak.3 += 1;
+                } else {
+                    self.timer_streak = (self.t, node, ch.0, 1);
+                }
+                self.max_timer_streak = self.max_timer_streak.max(self.timer_streak.3);
                 self.recs.push(Rec::Timer { t: self.t, node, ch });
                 if let Some(s) = self.nodes[node].conns.get_mut(&ch) {
                     s.conn.handle_timeout(now);
@@ -736,6 +772,7 @@ impl<A: App> World<A> {
                 Rec::Timer { t, node, ch } => (3u8, t, node, ch.0).hash(&mut h),
                 Rec::Event { t, node, ch, ev } => (4u8, t, node, ch.0, ev).hash(&mut h),
                 Rec::Drained { t, node, ch } => (5u8, t, node, ch.0).hash(&mut h),
+                Rec::NextTimeout { t, node, ch, at } => (6u8, t, node, ch.0, at).hash(&mut h),
             }
         }
         h.finish()
